@@ -23,6 +23,7 @@ def plan(tier, seed):
             {"name": "closed-0", "kind": "closed", "b": 0, "n": 10 if q else 80, "timeout": 1800},
             {"name": "closed-1", "kind": "closed", "b": 1, "n": 10 if q else 80, "timeout": 1800},
             {"name": "history", "kind": "history", "n": 4 if q else 24, "timeout": 2400, "cpus": 4},
+            {"name": "multinom", "kind": "multinom", "n": 8 if q else 60, "timeout": 1800},
             {"name": "chi2", "kind": "chi2", "n": 40 if q else 400, "timeout": 600}]
 
 
@@ -30,13 +31,70 @@ def required(tier):
     return {"hessian-exact-for-quadratics": 100, "gradient-exact-central-quadratic": 60, "gradient-exact-onesided-linear": 60,
             "FIM-closed-form": 10, "GIM-closed-form": 10, "LRT-closed-form": 10, "Wald-closed-form": 10, "score-closed-form": 10,
             "godambe-matrices-closed-form": 30, "second-order-in-eps": 40,
-            "bootstrap-order-independent": 10, "history-independent": 8, "chi2-scalar-equals-array": 20, "chi2-closed-form": 20}
+            "bootstrap-order-independent": 10, "history-independent": 8, "chi2-scalar-equals-array": 20, "chi2-closed-form": 20,
+            "theta-augmentation": 30}
 
 
 def run(spec, rec):
     import dadi
     kind = spec["kind"]
-    {"stencils": run_stencils, "closed": run_closed, "history": run_history, "chi2": run_chi2}[kind](spec, rec, dadi)
+    {"stencils": run_stencils, "closed": run_closed, "history": run_history, "chi2": run_chi2, "multinom": run_multinom}[kind](spec, rec, dadi)
+
+
+def run_multinom(spec, rec, dadi):
+    """multinom=True is the multinom=False computation on theta*model with theta appended at its optimal value, the optimal value
+    being sum(data)/sum(model) over the entries masked in neither (the data may hide singletons or other entries)"""
+    from dadi import Godambe
+    for ci in range(spec["n"]):
+        rng = rng_for(spec["seed"], "C19mn", ci)
+        n, B, p0, data, boots, mid = make_linear_case(rng, dadi, k=int(rng.integers(3, 5)))
+        k = len(p0)
+        q0 = [float(v) for v in p0[1:] / p0[0]]
+        eps = float(rng.choice([1e-2, 3e-3]))
+        hide = str(rng.choice(["nothing", "singletons", "some", "some"]))
+        data = data.copy()
+        if hide == "singletons":
+            data.mask[1] = True
+            data.mask[n - 1] = True
+        elif hide == "some":
+            for j in rng.choice(np.arange(1, n), size=int(rng.integers(1, 4)), replace=False):
+                data.mask[int(j)] = True
+
+        def g(q, ns, pts):
+            return dadi.Spectrum(B @ np.concatenate(([1.0], np.asarray(q, float))))
+
+        def h(q, ns, pts):
+            return q[-1] * g(q[:-1], ns, pts)
+        nested = sorted(int(v) for v in rng.choice(k - 1, size=int(rng.integers(1, k - 1)), replace=False))
+        desc = {"n": n, "k": k, "eps": eps, "hidden": hide, "nested": nested}
+        if not rec.case("mn-%d" % ci, desc, nontrivial=hide != "nothing"):
+            continue
+        tags = {"k": k, "hidden": hide}
+        m0 = g(q0, None, None)
+        J = ~(np.asarray(np.ma.getmaskarray(m0)) | np.asarray(np.ma.getmaskarray(data)))
+        theta = float(np.asarray(data.data)[J].sum() / np.asarray(m0.data)[J].sum())
+        qa = list(q0) + [theta]
+        full = list(q0)
+        for j in nested:
+            full[j] *= 1.2
+        calls = {
+            "GIM_uncert": (lambda mn, f, p: Godambe.GIM_uncert(f, [10], boots, list(p), data, multinom=mn, eps=eps)),
+            "FIM_uncert": (lambda mn, f, p: Godambe.FIM_uncert(f, [10], list(p), data, multinom=mn, eps=eps)),
+            "LRT_adjust": (lambda mn, f, p: Godambe.LRT_adjust(f, [10], boots, list(p), data, nested, multinom=mn, eps=eps)),
+            "score_stat": (lambda mn, f, p: Godambe.score_stat(f, [10], boots, list(p), data, nested, multinom=mn, eps=eps, adj_and_org=True)),
+            "Wald_stat": (lambda mn, f, p: Godambe.Wald_stat(f, [10], boots, list(p), data, nested, (full if mn else full + [theta]), multinom=mn, eps=eps,
+                                                             adj_and_org=True)),
+        }
+        for fname, call in calls.items():
+            ok1, a = rec.noraise("returns", lambda: call(True, g, q0), site="Godambe." + fname, tags=dict(tags, multinom=True))
+            ok2, b = rec.noraise("returns", lambda: call(False, h, qa), site="Godambe." + fname, tags=dict(tags, multinom=False))
+            if ok1 and ok2:
+                a, b = np.atleast_1d(np.asarray(a, float)).ravel(), np.atleast_1d(np.asarray(b, float)).ravel()
+                if a.shape == b.shape and np.all(np.isfinite(b)) and np.all(b != 0):
+                    rec.close("theta-augmentation", float(np.max(np.abs(a / b - 1))), 1e-6, site="Godambe." + fname, tags=tags,
+                              observed=a, expected=b)
+                else:
+                    rec.check("theta-augmentation", a.shape == b.shape and not np.all(np.isfinite(b)), site="Godambe." + fname, tags=tags, observed=a, expected=b)
 
 
 def run_stencils(spec, rec, dadi):
